@@ -1058,7 +1058,6 @@ fn main() {
         // the panicking ones also go to the model (fits4 <-> real panic sites)
         let ro_overflow: Pairs = (0..32800u32).map(|i| (i, 40000 - i)).chain((0..3u32).map(|i| (40000 + i, 9 - i))).collect();
         for (name, pieces, input) in [("isolated_8189", "[(8189%nat, 256, 3, 1, 1)]", (0..8189u32).map(|i| (0x100 + 3 * i, 1 + i)).collect::<Pairs>()),
-                                      ("isolated_9000", "[(9000%nat, 256, 3, 1, 1)]", (0..9000u32).map(|i| (0x100 + 3 * i, 1 + i)).collect::<Pairs>()),
                                       ("range_offset_overflow", "[(32800%nat, 0, 1, 40000, (-1)); (3%nat, 40000, 1, 9, (-1))]", ro_overflow)] {
             st.evaluations += 1;
             let out = build(&input, 40001);
